@@ -152,6 +152,8 @@ where
         A: ToSocketAddrs + Clone,
     {
         let socket = TcpListener::bind(addr.clone())?;
+        #[cfg(humphrey_verif)]
+        let verif_port = socket.local_addr().map(|a| a.port()).unwrap_or(0);
         let subapps = Arc::new(self.subapps);
         let default_subapp = Arc::new(self.default_subapp);
         let error_handler = Arc::new(self.error_handler);
@@ -164,7 +166,13 @@ where
         let shutdown_clone = shutdown.clone();
         let main_app_thread = thread::spawn(move || {
             for stream in socket.incoming() {
+                #[cfg(humphrey_verif)]
+                crate::verif_trace::push(verif_port, "accept");
+
                 if shutdown_clone.load(Ordering::SeqCst) {
+                    #[cfg(humphrey_verif)]
+                    crate::verif_trace::push(verif_port, "break");
+
                     break;
                 }
 
@@ -186,6 +194,9 @@ where
                                 Event::new(EventType::ConnectionSuccess)
                                     .with_peer_result(stream.peer_addr()),
                             );
+
+                            #[cfg(humphrey_verif)]
+                            crate::verif_trace::push(verif_port, "dispatch");
 
                             // Spawn a new thread to handle the connection
                             self.thread_pool.execute(move || {
@@ -217,16 +228,28 @@ where
                 }
             }
             self.thread_pool.stop();
+
+            #[cfg(humphrey_verif)]
+            crate::verif_trace::push(verif_port, "stop");
         });
 
         if let Some(s) = self.shutdown {
             // We wait for the shutdown signal, then wake up the main app thread with a new connection
             let _ = s.recv();
+            #[cfg(humphrey_verif)]
+            crate::verif_trace::push(verif_port, "signal");
             shutdown.store(true, Ordering::SeqCst);
+            #[cfg(humphrey_verif)]
+            crate::verif_trace::push(verif_port, "store");
             let _ = TcpStream::connect(unspecified_socket_to_loopback(addr));
+            #[cfg(humphrey_verif)]
+            crate::verif_trace::push(verif_port, "wake");
         };
 
         let _ = main_app_thread.join();
+
+        #[cfg(humphrey_verif)]
+        crate::verif_trace::push(verif_port, "join");
 
         Ok(())
     }
